@@ -4719,7 +4719,7 @@ class Pass(Construct):
         return "None"
 
     def _emitbuild(self, code):
-        return "None"
+        return "obj"
 
     def _emitfulltype(self, ksy, bitwise):
         return dict(size=0)
